@@ -227,3 +227,48 @@ func VH_C18_flowDefault() {
 		vCover("custom-action")
 	}
 }
+
+// stateless plain nodes (types without fields, used through pointers - the runtime may give them
+// all the same address) are different nodes: a chain of them on the default action is followed link
+// by link, whether their post returns "" or "default"
+type c18StepA struct{}
+type c18StepB struct{}
+
+var c18StepLog *[]int
+var c18StepAct Action
+
+func (*c18StepA) Prep(ctx context.Context, s *SharedStore) (any, error) { *c18StepLog = append(*c18StepLog, 1); return nil, nil }
+func (*c18StepA) Exec(ctx context.Context, p any) (any, error)          { return nil, nil }
+func (*c18StepA) Post(ctx context.Context, s *SharedStore, p, e any) (Action, error) {
+	return c18StepAct, nil
+}
+func (*c18StepB) Prep(ctx context.Context, s *SharedStore) (any, error) { *c18StepLog = append(*c18StepLog, 2); return nil, nil }
+func (*c18StepB) Exec(ctx context.Context, p any) (any, error)          { return nil, nil }
+func (*c18StepB) Post(ctx context.Context, s *SharedStore, p, e any) (Action, error) {
+	return c18StepAct, nil
+}
+
+func VH_C18_statelessChain() {
+	vUnwind(8)
+	var log []int
+	c18StepLog = &log
+	c18StepAct = ""
+	if vNondet[bool]("postReturnsTheDefaultActionItself") {
+		c18StepAct = DefaultAction
+	}
+	a, b := &c18StepA{}, &c18StepB{}
+	end := &vSimpleNode{act: "end"}
+	flow := NewFlow(a)
+	flow.Connect(a, DefaultAction, b)
+	if vNondet[bool]("lastLinkToo") {
+		flow.Connect(b, DefaultAction, end)
+	} else {
+		end.visits = 1 // nothing to follow after b
+	}
+	err := flow.Run(vNewCtx(), NewSharedStore())
+	if err != nil {
+		return
+	}
+	vAssert(len(log) == 2 && log[0] == 1 && log[1] == 2 && end.visits == 1, "default-connection-is-followed")
+	vCover("stateless-chain")
+}
